@@ -65,6 +65,7 @@ type c09Pass struct {
 	Count   int      `control:"X-Count"`
 	Note    string   `control:"X-Note"`
 	Tags    []string `delim:", "`
+	Origin  string   `control:"X-Origin" required:"true"`
 }
 
 type c09Inner struct {
@@ -526,11 +527,11 @@ func c09PassThrough(r *rt.Run) {
 	// document: known fields interleaved with unknown ones
 	type kv struct{ k, v string }
 	var fields []kv
-	known := map[string]string{"Package": genPkgName(t, "c09p.pkg"), "Version": genVersion(t, "c09p.ver").Text, "X-Count": fmt.Sprint(t.Draw(100, "c09p.count")), "X-Note": strings.TrimSpace(genValueText(t, "c09p.note", false)), "Tags": strings.Join(genTokens(t, "c09p.tags", 1+t.Draw(3, "c09p.ntags"), lowerAlnum), ", ")}
-	order := []string{"Package", "Version", "X-Count", "X-Note", "Tags"}
+	known := map[string]string{"Package": genPkgName(t, "c09p.pkg"), "Version": genVersion(t, "c09p.ver").Text, "X-Count": fmt.Sprint(t.Draw(100, "c09p.count")), "X-Note": strings.TrimSpace(genValueText(t, "c09p.note", false)), "Tags": strings.Join(genTokens(t, "c09p.tags", 1+t.Draw(3, "c09p.ntags"), lowerAlnum), ", "), "X-Origin": "origin-" + genPkgName(t, "c09p.origin")}
+	order := []string{"Package", "Version", "X-Count", "X-Note", "Tags", "X-Origin"}
 	present := map[string]bool{}
 	for _, k := range order {
-		if k == "Package" || t.Bool(3, 4, "c09p.present") {
+		if k == "Package" || k == "X-Origin" || t.Bool(3, 4, "c09p.present") {
 			fields = append(fields, kv{k, known[k]})
 			present[k] = true
 		}
@@ -606,6 +607,18 @@ func c09PassThrough(r *rt.Run) {
 		s.Version = version.Version{}
 		cleared = append(cleared, "Version")
 	}
+	// the required field emptied after the read: required fields are always
+	// written, with the struct's current (empty) value - not with the text that
+	// the embedded paragraph remembers
+	emptiedReq := false
+	if t.Bool(1, 3, "c09p.emptyreq") {
+		s.Origin = ""
+		emptiedReq = true
+		r.Probe("required-field-emptied-after-read")
+	} else if t.Bool(1, 3, "c09p.mutreq") {
+		s.Origin = "elsewhere"
+		mut["X-Origin"] = s.Origin
+	}
 	if len(cleared) > 0 {
 		r.Probe("known-field-cleared")
 	}
@@ -671,6 +684,9 @@ func c09PassThrough(r *rt.Run) {
 		if v, ok := b.Values[k]; ok && v != "" {
 			r.Violate("C09/known-field-stale", "cleared/"+k, "struct field for %s was cleared (cleared together: %v) but the marshalled text still has %q\nout:\n%q", k, cleared, v, clip(string(w.Buf), 300))
 		}
+	}
+	if v, ok := b.Values["X-Origin"]; emptiedReq && (!ok || strings.TrimSpace(v) != "") {
+		r.Violate("C09/known-field-stale", "required-emptied/X-Origin", "required struct field Origin was set to \"\" after the read but the marshalled text has %q (present=%v)\nout:\n%q", v, ok, clip(string(w.Buf), 300))
 	}
 	clearedVer := false
 	for _, k := range cleared {
@@ -1021,5 +1037,5 @@ func init() {
 		},
 		Assumptions: []string{"'optional zero fields are omitted' is demanded for fields whose text form is empty when zero (strings, lists, versions, dependencies); the pinned test suite requires false booleans to be written as 'no', and zero integers are written as '0'", "architecture values are restricted to names whose String() form re-parses to the same value (wildcard and three-part names lose information in Arch.String, which belongs to the not-applicable properties C05/C06)"},
 	})
-	propProbes["C09"] = []string{"embedded-paragraph-not-the-first-member", "sequence-with-values-that-marshal-to-nothing", "value-longer-than-4096-bytes", "marshalled-again-after-a-failed-marshal", "same-named-struct-types", "uint-above-int64-range", "marshalled-repeatedly", "list-elements-independent", "several-known-fields-cleared", "required-empty-list", "multi-line-string-field", "paragraph-api", "missing-required-field", "unknown-fields-present", "known-field-cleared", "nested-plain-struct", "pointer-fields"}
+	propProbes["C09"] = []string{"required-field-emptied-after-read", "embedded-paragraph-not-the-first-member", "sequence-with-values-that-marshal-to-nothing", "value-longer-than-4096-bytes", "marshalled-again-after-a-failed-marshal", "same-named-struct-types", "uint-above-int64-range", "marshalled-repeatedly", "list-elements-independent", "several-known-fields-cleared", "required-empty-list", "multi-line-string-field", "paragraph-api", "missing-required-field", "unknown-fields-present", "known-field-cleared", "nested-plain-struct", "pointer-fields"}
 }
